@@ -140,7 +140,7 @@ func askModel(h *History, usePin bool) (steps []modelStep, reach map[int]string)
 	orc.Askf("c09 reset %d %s %s %s", id, h.Engine, b2s(h.Cache), b2s(usePin))
 	reach = map[int]string{}
 	for k, op := range h.Ops {
-		if strings.HasPrefix(op, "dupname") {
+		if strings.HasPrefix(op, "dupname") || strings.HasPrefix(op, "dupcm") {
 			// no effect in the model: a refused (or immediately closed) instantiation changes nothing for the others
 			st := modelStep{Ans: "ok", Shadow: true, Disc: true, PrimsOK: true}
 			if len(steps) > 0 {
@@ -434,6 +434,9 @@ func corpus() []*History {
 		mk(false, "inst 0 - exp", "inst 1 - imp:0", "pass 1 own 0 tab:1", "call 0 tab:1 3", "close 1", "closecm 1", "drop 1",
 			"inst 2 - imp:0 as:1", "pass 2 own 0 tab:1", "call 0 tab:1 3", "close 2", "closecm 2", "drop 2", "gc", "call 0 tab:1 3",
 			"inst 3 - imp:0 as:1", "pass 3 own 0 tab:2", "close 3", "closecm 3", "drop 3", "gc", "call 0 tab:2 3", "call 0 tab:1 3")
+		// safe: the binary of a live instance compiled a second time, that handle closed without being instantiated
+		mk(false, "inst 0 - priv", "inst 1 0 priv", "call 1 imp 4", "dupcm 0", "gc", "call 1 imp 4", "call 0 host 1", "dupcm 1", "dupcm 0", "gc", "call 1 imp 4", "pass 0 own 1 tab:1", "call 1 tab:1 3")
+		mk(true, "inst 0 - exp", "inst 1 - imp:0", "pass 1 own 0 tab:1", "dupcm 1", "dupcm 0", "gc", "call 0 tab:1 3", "call 1 tab:1 3")
 		// closed but reachable: ordinary error
 		mk(false, "inst 0 - priv", "inst 1 - priv", "pass 0 own 1 tab:2", "close 0", "gc", "call 0 host 1", "call 1 tab:2 5", "pass 0 own 1 tab:3")
 		// runtime closed: every call is the ordinary error, also after GC
